@@ -28,4 +28,11 @@ CHECKS = [
         "deterministic simulation: seeded history (import order / counter state / cache eviction) search against the canonical-history run of the same code, ddmin-minimised replay files",
         "DESIGN.md section 3",
     ),
+    _check(
+        "C09",
+        "Seeded search over creation/clone sequences (5-60 ops; display names from a small colliding pool incl. names that look like internal ones; all clone helpers; coordinate systems and transforms; experimental vector symbols/functions that mint from the same counters) interleaved with perturbations (forward counter jumps to digit boundaries, real bulk creation, cache eviction, creation while the evaluate flag is off, catalogue imports). After every step: pairwise distinctness, unique generated names, every earlier object reads back its names/dimension/assumptions/scale factor (durability), clone contract against a reference model; at the end: independence under subs/diff/solve on a prime-weighted sum judged numerically, and print_expression/code_str show display names and no generated name. Sampling, not proof.",
+        "Reference model (expected names/assumptions) is hand-written (about 60 lines); expected assumptions come from plain sympy.Symbol with the same kwargs. Quantities are valued by their scale factor (SymPy may relate quantities of one dimension). Trusted: SymPy subs/diff/solve on linear sums.",
+        "deterministic simulation: seeded operation + perturbation sequences checked step by step against an abstract-identity reference model, ddmin-minimised replay files",
+        "DESIGN.md section 4",
+    ),
 ]
